@@ -408,6 +408,8 @@ func requireFuncs(w *World, r *Report, names ...string) (map[string]*ssa.Functio
 	ReportAllocWrap(w, r, names...)
 	ReportAllocSign(w, r, names...)
 	ReportArrayBound(w, r, names...)
+	ReportCountWidth(w, r, names...)
+	ReportNegBound(w, r, names...)
 	seenPkg := map[string]bool{}
 	var shorts []string
 	for _, n := range names {
